@@ -60,6 +60,16 @@ def snapshot():
             if isinstance(d, dict):
                 instances.append((obj, dict(d)))
 
+    def add_function(f):
+        for cell in (f.__closure__ or ()):
+            try:
+                add_container(cell.cell_contents)
+            except ValueError:
+                pass
+        # mutable default arguments are process-wide objects too
+        for d in list(f.__defaults__ or ()) + list((f.__kwdefaults__ or {}).values()):
+            add_container(d)
+
     def add_instance(v):
         if id(v) in seen or not hasattr(v, "__dict__"):
             return
@@ -77,15 +87,14 @@ def snapshot():
                 continue
             add_container(v)
             if isinstance(v, types.FunctionType):
-                for cell in (v.__closure__ or ()):
-                    try:
-                        add_container(cell.cell_contents)
-                    except ValueError:
-                        pass
+                add_function(v)
             if hasattr(v, "cache_clear") and callable(getattr(v, "cache_clear", None)):
                 clearers.append(v.cache_clear)
             if isinstance(v, type) and getattr(v, "__module__", "").startswith("html5lib"):
                 for a, av in list(vars(v).items()):
+                    fobj = getattr(av, "__func__", av)
+                    if isinstance(fobj, types.FunctionType):
+                        add_function(fobj)
                     if not a.startswith("__"):
                         add_container(av)
                         if (not isinstance(av, (type, types.FunctionType, types.BuiltinFunctionType, property, staticmethod,
